@@ -82,20 +82,24 @@ fn same_word(a: &str, b: &str) -> bool {
 }
 
 /// Compare one input with the model.
-fn check_one(input: &str) -> Result<Expect, (&'static str, String)> {
+fn check_one(input: &str, verbose: bool) -> Result<Expect, (&'static str, String)> {
+    // messages are only built when they will be recorded
+    macro_rules! m {
+        ($($t:tt)*) => { if verbose { format!($($t)*) } else { String::new() } };
+    }
     let expect = git::parse(input);
     let actual = match guarded(|| anstyle_git::parse(input)) {
         Ok(a) => a,
-        Err(p) => return Err(("panic", format!("anstyle_git::parse({input:?}) panicked: {p}"))),
+        Err(p) => return Err(("panic", m!("anstyle_git::parse({input:?}) panicked: {p}"))),
     };
     match &expect {
         Expect::Unspecified(_) => {}
         Expect::Style(m) => match &actual {
-            Err(e) => return Err(("valid-rejected", format!("parse({input:?}) is valid ({}) but was rejected: {e}", show_model(m)))),
+            Err(e) => return Err(("valid-rejected", m!("parse({input:?}) is valid ({}) but was rejected: {e}", show_model(m)))),
             Ok(st) => {
                 let (fg, bg, ul, fx) = style_tuple(st);
                 if !(color_matches(m.fg, fg) && color_matches(m.bg, bg) && ul == Col::Default && fx == m.effects) {
-                    return Err(("wrong-style", format!("parse({input:?}) = {} but the words denote {}", show_actual(st), show_model(m))));
+                    return Err(("wrong-style", m!("parse({input:?}) = {} but the words denote {}", show_actual(st), show_model(m))));
                 }
             }
         },
@@ -103,17 +107,17 @@ fn check_one(input: &str) -> Result<Expect, (&'static str, String)> {
             Ok(st) => {
                 let (v, w) = &list[0];
                 let what = if list.iter().any(|(_, w)| w.starts_with('#')) { "invalid-hash-word-accepted" } else { "invalid-accepted" };
-                return Err((what, format!("parse({input:?}) must be rejected ({v:?} {w:?}) but was accepted as {}", show_actual(st))));
+                return Err((what, m!("parse({input:?}) must be rejected ({v:?} {w:?}) but was accepted as {}", show_actual(st))));
             }
             Err(e) => {
                 let (av, aw) = match e {
                     anstyle_git::Error::ExtraColor { word, .. } => (GitErr::ExtraColor, word.clone()),
                     anstyle_git::Error::UnknownWord { word, .. } => (GitErr::UnknownWord, word.clone()),
-                    other => return Err(("wrong-error", format!("parse({input:?}): unexpected error variant {other:?}"))),
+                    other => return Err(("wrong-error", m!("parse({input:?}): unexpected error variant {other:?}"))),
                 };
                 if !list.iter().any(|(v, w)| *v == av && same_word(w, &aw)) {
                     let clause = if list.iter().any(|(_, w)| same_word(w, &aw)) { "wrong-error-variant" } else { "wrong-error-word" };
-                    return Err((clause, format!("parse({input:?}) failed with {av:?} naming {aw:?}; offending words per the grammar: {list:?}")));
+                    return Err((clause, m!("parse({input:?}) failed with {av:?} naming {aw:?}; offending words per the grammar: {list:?}")));
                 }
             }
         },
@@ -121,9 +125,44 @@ fn check_one(input: &str) -> Result<Expect, (&'static str, String)> {
     Ok(expect)
 }
 
-fn run_case(system: &str, input: &str, acc: &mut Acc, col: &Collector, track: bool) -> bool {
+/// at most this many violations per clause and chunk of a sweep are recorded individually; the rest are only counted
+const PER_CHUNK: usize = 64;
+
+#[derive(Default)]
+struct Budget {
+    /// per clause: (violations seen in this chunk, of which recorded individually)
+    seen: Vec<(&'static str, u64, u64)>,
+}
+
+impl Budget {
+    /// true if the next violation of `clause` is to be recorded individually
+    fn take(&mut self, clause: &'static str) -> bool {
+        let i = match self.seen.iter().position(|(c, _, _)| *c == clause) {
+            Some(i) => i,
+            None => {
+                self.seen.push((clause, 0, 0));
+                self.seen.len() - 1
+            }
+        };
+        let e = &mut self.seen[i];
+        e.1 += 1;
+        if (e.2 as usize) < PER_CHUNK {
+            e.2 += 1;
+            true
+        } else {
+            false
+        }
+    }
+    fn flush(self, system: &str, col: &Collector) {
+        for (clause, seen, recorded) in self.seen {
+            col.add_count(system, clause, seen - recorded);
+        }
+    }
+}
+
+fn run_case_b(system: &str, input: &str, acc: &mut Acc, col: &Collector, track: bool, budget: &mut Budget) -> bool {
     acc.evals += 1;
-    match check_one(input) {
+    match check_one(input, false) {
         Ok(e) => {
             match &e {
                 Expect::Unspecified(_) => acc.unspecified += 1,
@@ -135,17 +174,25 @@ fn run_case(system: &str, input: &str, acc: &mut Acc, col: &Collector, track: bo
             }
             true
         }
-        Err((clause, msg)) => {
-            col.push(Finding {
-                system: system.to_string(),
-                clause: clause.to_string(),
-                case: vec![format!("{input:?}")],
-                message: msg,
-                replay: json!({"kind": "parse", "input": hex(input.as_bytes())}),
-            });
+        Err((clause, _)) => {
+            if budget.take(clause) {
+                let msg = check_one(input, true).err().map(|(_, m)| m).unwrap_or_default();
+                col.push(Finding {
+                    system: system.to_string(),
+                    clause: clause.to_string(),
+                    case: vec![format!("{input:?}")],
+                    message: msg,
+                    replay: json!({"kind": "parse", "input": hex(input.as_bytes())}),
+                });
+            }
             false
         }
     }
+}
+
+fn run_case(system: &str, input: &str, acc: &mut Acc, col: &Collector, track: bool) -> bool {
+    let mut b = Budget::default();
+    run_case_b(system, input, acc, col, track, &mut b)
 }
 
 // ---- round trip ------------------------------------------------------------
@@ -325,13 +372,15 @@ fn sweep_indexed(total: u64, system: &str, col: &Collector, track: bool, make: i
         .into_par_iter()
         .map(|c| {
             let mut acc = Acc::default();
+            let mut budget = Budget::default();
             let mut s = String::new();
             let lo = c as u64 * CHUNK;
             for i in lo..(lo + CHUNK).min(total) {
                 s.clear();
                 make(i, &mut s);
-                run_case(system, &s, &mut acc, col, track);
+                run_case_b(system, &s, &mut acc, col, track, &mut budget);
             }
+            budget.flush(system, col);
             acc
         })
         .reduce(Acc::default, Acc::merge)
@@ -599,7 +648,7 @@ fn replay(v: &serde_json::Value) -> Result<(), String> {
         "parse" => {
             let b = unhex(v["input"].as_str().ok_or("missing input")?);
             let s = String::from_utf8(b).map_err(|e| e.to_string())?;
-            check_one(&s).map(|_| ()).map_err(|(c, m)| format!("{c}: {m}"))
+            check_one(&s, true).map(|_| ()).map_err(|(c, m)| format!("{c}: {m}"))
         }
         "roundtrip" => {
             let gs = GitStyle {
